@@ -32,10 +32,21 @@ def go_append_bytes(m, s, vals):
     return X.Slice(o, (), 0, need, newcap)
 
 
+NARROW = {'on': False}
+
+
 def H(name, parts, outlen=32):
-    """uninterpreted hash of the concatenation of byte lists `parts` (named per total length)"""
+    """uninterpreted hash of the concatenation of byte lists `parts` (named per total length).
+    In the toy interpretation (NARROW) the digest is a 16-bit uninterpreted value zero-extended to outlen bytes, so
+    that "int(hash) mod n'" stays a narrow term (the full-width reduction is discharged separately)."""
     data = [b for p in parts for b in p]
     n = len(data)
+    if NARROW['on']:
+        if n == 0:
+            t = tm.uf('%s16_len0' % name, [], 16)
+        else:
+            t = tm.uf('%s16_len%d' % (name, n), [tm.lift(cat_bytes(data), 8 * n)], 16)
+        return [0] * (outlen - 2) + bytes_of_term(t, 2)
     if n == 0:
         t = tm.uf('%s_len0' % name, [], 8 * outlen)
     else:
